@@ -227,8 +227,81 @@ def bfs(cell):
     return res
 
 
+def legend_case(case):
+    """The user-facing end of the id table: plot_sampling(F) draws the saved run with one legend entry per sampler id. Every entry
+    (marker of id i, text t) must say t = name of the class that produced the rows labelled i - for small runs and for runs of
+    thousands of rows (a thinned or re-ordered frame must not re-pair ids and names)."""
+    import matplotlib
+
+    matplotlib.use("Agg")
+    import matplotlib.pyplot as plt
+
+    import black_it.plot.plot_results as pr
+
+    v = []
+    with C.scratch() as root:
+        F = root / "F"
+        cfg = {"lineup": [{"cls": c, "bs": case["bs"]} for c in case["lineup"]], "seed": case.get("seed", 0), "dims": 2, "model": "const2", "ensemble": 1, "saving_folder": str(F),
+               "precision": 0.0001}
+        live = C.build(cfg)
+        rec = C.Recorder()
+        with rec, quiet():
+            live.calibrate(case["batches"])
+        inv = {}
+        for c, lab in zip([c["cls"] for c in rec.sample_calls for _ in range(len(c["out"]))], np.asarray(live.method_samp).tolist()):
+            inv.setdefault(int(lab), c)
+        try:
+            with quiet():
+                pr.plot_sampling(str(F))
+            leg = plt.gca().get_legend() or (plt.gcf().legends[-1] if plt.gcf().legends else None)
+            handles = list(getattr(leg, "legend_handles", None) or getattr(leg, "legendHandles", []))
+            texts = [t.get_text() for t in leg.get_texts()]
+            # the hue value a handle stands for is recovered from its colour: seaborn draws hue level k of the sorted ids in palette colour k
+            import seaborn as sns
+            from matplotlib.colors import to_rgb
+
+            ids = sorted(inv)
+            pal = [tuple(round(x, 3) for x in to_rgb(c)) for c in sns.color_palette("tab10", len(ids))]
+            pairs = []
+            for h, t in zip(handles, texts):
+                col = h.get_color() if hasattr(h, "get_color") else h.get_facecolor()
+                col = tuple(round(x, 3) for x in to_rgb(col if not hasattr(col, "shape") or np.ndim(col) == 1 else col[0][:3]))
+                pairs.append((ids[pal.index(col)] if col in pal else None, t))
+            if len(pairs) != len(ids) or any(i is None for i, _ in pairs):
+                v.append(("legend-unreadable", f"legend has {len(pairs)} readable entries for ids {ids}: {pairs}"))
+            else:
+                bad = [(i, t, inv[i]) for i, t in pairs if t != inv[i]]
+                if bad:
+                    v.append(("legend-names-wrong", f"plot_sampling labels (id, text) = {pairs}; the rows were produced by {inv} ({len(live.method_samp)} rows)"))
+        except Exception as e:  # noqa: BLE001
+            v.append(("plot-cannot-read-checkpoint", f"plot_sampling raised {type(e).__name__}: {e}"))
+        finally:
+            plt.close("all")
+    return v
+
+
+def legend_cell(cell):
+    res = {"evaluations": 0, "nontrivial": 0, "states": 0, "transitions": 0, "traces": 0, "stats": {}, "outcomes": set(), "violations": [], "samples": []}
+    for case in cell["cases"]:
+        vs = legend_case(case)
+        res["evaluations"] += 1
+        res["transitions"] += 1
+        res["stats"]["legends_read"] = res["stats"].get("legends_read", 0) + 1
+        for key, what in vs:
+            if sum(1 for x in res["violations"] if x["key"] == key) < 1:
+                res["violations"].append({"key": key, "what": f"[{case['lineup']} x batch size {case['bs']} x {case['batches']} batches] {what}", "case": dict(case, legend=True)})
+    res["states"] = res["evaluations"]
+    return res
+
+
+def run_cell(cell):
+    return legend_cell(cell) if cell.get("kind") == "legend" else bfs(cell)
+
+
 def replay_case(case):
     """Straight-line re-execution of one history."""
+    if case.get("legend"):
+        return [{"key": k, "what": w} for k, w in legend_case(case)]
     init, ops = case["init"], case["ops"]
     out = []
     with C.scratch() as root:
@@ -288,10 +361,17 @@ def main(ctx):
     for init in (["Halton", "RandomUniform"], ["RandomUniform", "RandomUniform", "Halton"], ["RSequence"], ["Halton", "BestBatch"]):
         for part in range(4):
             cells.append({"init": init, "depth": depth, "lineups": lids[part::4] if ctx.quick else lids[part::2], "seed": ctx.seed})
-    ctx.bounds = {"depth": depth, "initial_lineups": 4, "replacement_lineups": LINEUPS, "ops": ["calibrate(1)", "set_samplers(L)", "set_scheduler(RoundRobin(L))", "restore"]}
+    ctx.bounds = {"legends": "plot_sampling on saved runs of 12 and 6000 rows (thorough: up to 10400)", "depth": depth, "initial_lineups": 4, "replacement_lineups": LINEUPS, "ops": ["calibrate(1)", "set_samplers(L)", "set_scheduler(RoundRobin(L))", "restore"]}
     ctx.rule = "BFS over histories with state deduplication; evaluations = transitions executed and judged; non-trivial = replacement / restore transitions; traces = checkpoints read back through the plotting helper"
     ctx.assumptions = ["reference model of the id table: dense first-seen numbering, appended on replacement; the property itself only requires stability and uniqueness",
                        "known finding id-table-not-persisted is attributed only when a correct implementation of the in-memory table would fail in the same way"]
-    ctx.pmap("vf.checks.c18:bfs", cells)
+    lg = [{"lineup": ["Halton", "RandomUniform", "RSequence"], "bs": 2, "batches": 6}, {"lineup": ["RandomUniform", "Halton"], "bs": 3, "batches": 4},
+          {"lineup": ["Halton", "RandomUniform", "RSequence"], "bs": 1000, "batches": 6}]
+    if not ctx.quick:
+        lg += [{"lineup": ["RSequence", "RandomUniform"], "bs": 2600, "batches": 4}, {"lineup": ["Halton", "RandomUniform", "RSequence"], "bs": 1667, "batches": 3}]
+    for c in lg:
+        cells.insert(0, {"kind": "legend", "cases": [c]})
+    ctx.pmap("vf.checks.c18:run_cell", cells)
+    ctx.require(ctx.stats.get("legends_read", 0) >= 3, "the legends of plot_sampling were not read")
     ctx.require(ctx.traces > 100, "too few checkpoints read back")
     ctx.require(ctx.nontrivial > 300, "too few replacement/restore transitions")
